@@ -1191,8 +1191,32 @@ def loop_fragment_cases(rnd, n):
             if c < 0.9:
                 return "reset q[%s];" % qidx(nq)
             return "barrier q[%s];" % qidx(nq)
+        # gate definitions (library gates on the formals, parameters literal or formal) and calls with literal actuals
+        defs = []
+        for d in range(rnd.randint(0, 2)):
+            k = rnd.randint(1, 3)
+            formals = ["a", "b", "c"][:k]
+            params = ["t", "u"][: rnd.randint(0, 2)]
+            body = []
+            for _j in range(rnd.randint(1, 4)):
+                c = rnd.random()
+                if c < 0.4:
+                    body.append("%s %s;" % (rnd.choice(g1), rnd.choice(formals)))
+                elif c < 0.7 or k == 1:
+                    body.append("%s(%s) %s;" % (rnd.choice(gp), rnd.choice(params + ["0.25", "2"]), rnd.choice(formals)))
+                else:
+                    x, y = rnd.sample(formals, 2)
+                    body.append("%s %s, %s;" % (rnd.choice(g2), x, y))
+            nm = "cg%d" % d
+            L.append("gate %s%s %s { %s }" % (nm, "(%s)" % ", ".join(params) if params else "", ", ".join(formals), " ".join(body)))
+            defs.append((nm, len(params), k))
         for _k in range(rnd.randint(2, 5)):
-            if rnd.random() < 0.55:
+            if defs and rnd.random() < 0.35:
+                nm, npar, k = rnd.choice(defs)
+                qs = rnd.sample(range(nq), k) if not (bad and rnd.random() < 0.3) else [rnd.randrange(nq)] * k
+                L.append("%s%s %s;" % (nm, "(%s)" % ", ".join(rnd.choice(["0.5", "3", "1.5"]) for _ in range(npar)) if npar else "",
+                                       ", ".join("q[%d]" % x for x in qs)))
+            elif rnd.random() < 0.55:
                 lo = rnd.randint(0, 2)
                 hi = rnd.randint(lo - 1, min(nq, nc) - 1)
                 if hi < 0:
